@@ -405,6 +405,19 @@ def i_name_object(I, args, ins):
     return None
 
 
+def i_name_heap_object(I, args, ins):
+    """verifNameHeapObject(name, p): every load and store through a pointer into the object p points to is
+    recorded as a read / write of `name` (whole-object granularity)."""
+    ctx = I.ctx
+    v = ctx.force(args[1])
+    if isinstance(v, Iface):
+        v = ctx.force(v.val)
+    if isinstance(v, Ptr):
+        ctx.ghost.setdefault('shared_cells', {})[v.cell] = _label(args[0])
+        ctx.ghost.setdefault('object_names', {})[repr(('cell', v.cell))] = _label(args[0])
+    return None
+
+
 def i_op(I, args, ins):
     I.ctx.event('op', _label(args[0]))
     return None
@@ -422,7 +435,7 @@ INTRINSICS = {
     'verifNondetByte': i_nondet_byte, 'verifNondetString': i_nondet_string, 'verifNondetBytes': i_nondet_bytes,
     'verifNondetTime': i_nondet_time, 'verifNondetTimeMs': i_nondet_time_ms,
     'verifNondetDuration': i_nondet_duration, 'verifChoose': i_choose, 'verifHavoc': i_havoc, 'verifNote': i_note,
-    'verifHex': i_hex, 'verifNameObject': i_name_object, 'verifOp': i_op, 'verifParam': i_param, 'verifNondetBytesLen': i_nondet_bytes_len, 'verifNondetStringNoColon': i_nondet_string_nocolon, 'verifNoColon': i_nocolon, 'verifNondetURL': i_nondet_url, 'verifAnd': i_and, 'verifOr': i_or,
+    'verifHex': i_hex, 'verifNameObject': i_name_object, 'verifNameHeapObject': i_name_heap_object, 'verifOp': i_op, 'verifParam': i_param, 'verifNondetBytesLen': i_nondet_bytes_len, 'verifNondetStringNoColon': i_nondet_string_nocolon, 'verifNoColon': i_nocolon, 'verifNondetURL': i_nondet_url, 'verifAnd': i_and, 'verifOr': i_or,
 }
 
 
